@@ -3,7 +3,7 @@
 # confirm the seeded change independently, run our checks against it, keep it under seeded/<Cxx>-<N>/ with meta.json
 pid=$1; n=$2; src=$3; shift 3
 out=/verif/seeded/$pid-$n; mkdir -p "$out"
-[ "$(readlink -f "$src")" = "$out" ] || cp "$src"/patch.diff "$out"/ ; for f in demo.c demo.sh demo.libs demo.flags README.md; do [ -f "$src/$f" ] && [ "$(readlink -f "$src")" != "$out" ] && cp "$src/$f" "$out"/; done
+[ "$(readlink -f "$src")" = "$out" ] || cp "$src"/patch.diff "$out"/ ; if [ "$(readlink -f "$src")" != "$out" ]; then for f in "$src"/*; do [ -f "$f" ] && [ "$(basename "$f")" != patch.diff ] && [ "$(stat -c %s "$f")" -lt 400000 ] && cp "$f" "$out"/; done; fi
 conf=$(sh /verif/tools/confirm_seed.sh "$out" 2>&1); crc=$?
 echo "$conf" | tail -6
 res=$(sh /verif/tools/${TRY:-try_seed_iso.sh} "$out/patch.diff" "$@" 2>&1)
